@@ -233,6 +233,10 @@ pub struct SchedSpec {
     /// (thread, from_step, to_step)
     #[serde(default)]
     pub starve: Option<(usize, usize, usize)>,
+    /// The starvation window only opens once the thread holds the maintenance (deques) lock
+    /// at or after `from_step`; it then lasts `to_step - from_step` steps.
+    #[serde(default, skip_serializing_if = "std::ops::Not::not")]
+    pub starve_in_sync: bool,
     pub budget: usize,
 }
 
